@@ -579,6 +579,65 @@ def rule_r5(chk, p, t):
             r.guard(m.qualname, one)
 
 
+_WRAPS = {"wrapAngle2Pi", "wrapAngleNegPiPi", "wrapAnglePi", "remainder", "mod"}
+_SATURATING = {"min", "max", "clip", "minimum", "maximum", "fmin", "fmax", "safeClip", "abs", "fabs", "absolute"}
+
+
+def rule_r6(chk, p, t):
+    r = chk.rule(
+        "C16.R6",
+        "between ingestion and the filter an angle is only re-represented by period-preserving maps",
+        2,
+        "the update is invariant to adding a whole turn to a measured angle only if nothing on the way from the "
+        "Observation record to the filter treats the angle as a plain number: Observation.__init__ stores each angular "
+        "measurement either unchanged or through a wrap (wrapAngle2Pi / wrapAngleNegPiPi / a true modulo) - a map that "
+        "sends x and x + 2 pi to the same value.  A saturating map (min / max / clip / abs) sends 355 degrees and -5 "
+        "degrees to different values although they name the same direction; any other transformation is undecided.  "
+        "Angular slots are those whose measurement type declares is_angular (R3)",
+        "what the filter does with the stored value (R1-R4)",
+    )
+    obs = p.cls("resonaate.data.observation.Observation")
+    init = obs.methods.get("__init__")
+    require(init is not None, "Observation.__init__ not found", obs.node)
+    # angular slots: Observation attributes named by measurement types that declare an angular kind
+    angular = []
+    for q, ci in p.classes.items():
+        if not q.startswith("resonaate.physics.measurements."):
+            continue
+        lab = next((st.value for st in ci.node.body if isinstance(st, (ast.Assign, ast.AnnAssign)) and unparse(st.targets[0] if isinstance(st, ast.Assign) else st.target) == "LABEL" and st.value is not None), None)
+        is_ang = ci.methods.get("is_angular")
+        if lab is None or is_ang is None or not isinstance(lab, ast.Constant):
+            continue
+        rets = [n for n in walk_no_nested(is_ang.node) if isinstance(n, ast.Return) and n.value is not None]
+        if rets and not (isinstance(rets[0].value, ast.Attribute) and rets[0].value.attr == "NOT_ANGLE"):
+            angular.append(lab.value)
+    require(len(angular) >= 2, f"angular measurement labels not found ({angular})", obs.node)
+    for lab in sorted(angular):
+        stores = [n for n in walk_no_nested(init.node) if isinstance(n, (ast.Assign, ast.AnnAssign)) and unparse(n.targets[0] if isinstance(n, ast.Assign) else n.target) == f"self.{lab}" and n.value is not None]
+        cons = f"{obs.qualname}.{lab}"
+        if len(stores) != 1:
+            r.undecided(cons, f"{len(stores)} stores of self.{lab} in Observation.__init__", init.loc())
+            continue
+        v = inline_locals(init, stores[0].value)
+        # `None if x is None else E` / `E if x is not None else None`
+        while isinstance(v, ast.IfExp):
+            v = v.orelse if (isinstance(v.body, ast.Constant) and v.body.value is None) else v.body
+        while isinstance(v, ast.Call) and call_name(v) == "float" and len(v.args) == 1:
+            v = v.args[0]
+        names = {n.id for n in ast.walk(v) if isinstance(n, ast.Name)}
+        calls = {call_name(c) for c in ast.walk(v) if isinstance(c, ast.Call)}
+        if isinstance(v, ast.Name) and v.id == lab:
+            r.ok(cons, "stored unchanged", init.loc(stores[0]))
+        elif lab not in names:
+            r.violation(cons, f"angle-source:{lab}:{unparse(v)[:50]}", f"self.{lab} is set from `{unparse(v)[:70]}`, not from the `{lab}` argument", init.loc(stores[0]))
+        elif calls & _SATURATING:
+            r.violation(cons, f"angle-saturated:{lab}:{sorted(calls & _SATURATING)}", f"self.{lab} is set from `{unparse(v)[:80]}`: {sorted(calls & _SATURATING)} saturate - an angle given on another turn (355 deg for -5 deg, or any value a whole turn away) is stored as a DIFFERENT direction, so the filter update is no longer invariant to the representation of the measured angle", init.loc(stores[0]))
+        elif (isinstance(v, ast.Call) and call_name(v) in _WRAPS and v.args and isinstance(v.args[0], ast.Name) and v.args[0].id == lab) or (isinstance(v, ast.BinOp) and isinstance(v.op, ast.Mod) and isinstance(v.left, ast.Name) and v.left.id == lab):
+            r.ok(cons, f"stored through the period-preserving `{unparse(v)[:40]}`", init.loc(stores[0]))
+        else:
+            r.undecided(cons, f"self.{lab} is set from `{unparse(v)[:80]}`: not recognised as a period-preserving map", init.loc(stores[0]))
+
+
 def run(chk, p, t):
     chk.explanation = (
         "Static decision of structural necessary conditions of C16: (R1) measurement vectors never meet in a raw "
@@ -589,7 +648,7 @@ def run(chk, p, t):
         "observation list in order. NOT decided: numerical invariance to turns and permutations."
     )
     chk.assumptions += ["numpy.remainder takes the sign of the divisor, numpy.fmod of the dividend; `%` on arrays is a true modulo"]
-    for fn in (rule_r1, rule_r2, rule_r3, rule_r4, rule_r5):
+    for fn in (rule_r1, rule_r2, rule_r3, rule_r4, rule_r5, rule_r6):
         rid = "C16.R" + fn.__name__[-1]
         if not chk.wants(rid):
             continue
